@@ -208,6 +208,11 @@ func (e *kvElection) Start(ctx context.Context) error {
 
 	e.ctx, e.cancel = context.WithCancel(ctx)
 
+	// A new run begins. A watch loop of the previous run (ended by Stop or by
+	// cancelling that run's context) is bound to the old, cancelled context and
+	// may still be winding down; it must not keep this run from starting its own.
+	e.watcherRunning.Store(false)
+
 	if e.connectionMonitor != nil {
 		if err := e.connectionMonitor.Start(ctx); err != nil {
 			e.cancel()
@@ -620,7 +625,12 @@ func (e *kvElection) becomeFollower() bool {
 		e.wg.Add(1)
 		watchCtx := e.ctx
 		go func() {
-			defer e.watcherRunning.Store(false)
+			defer func() {
+				// only a loop of the current run owns the flag
+				if watchCtx.Err() == nil {
+					e.watcherRunning.Store(false)
+				}
+			}()
 			defer e.wg.Done()
 			e.watchLoop(watchCtx)
 		}()
